@@ -4,7 +4,7 @@
 #   (3) the demonstration passes without it.  On success copies it to /verif/seeded/<PID><variant>/.
 set -u
 pid=$1; var=$2
-src=/tmp/mutout/$pid/$var
+src=${MUTOUT:-/tmp/mutout}/$pid/$var
 wt=/tmp/mutval_$pid$var
 export CARGO_NET_OFFLINE=true
 [ -f $src/patch.diff ] || { echo "$pid$var: no patch"; exit 2; }
@@ -22,7 +22,7 @@ timeout 600 cargo test --offline --test demo_mut >/tmp/mutval_$pid$var.without.l
 echo "$pid$var: suite(pass fail)=$suite featbuild=$featbuild demo_with_patch_exit=$with demo_without_patch_exit=$without"
 read p f <<< "$suite"
 if [ "$p" = "59" ] && [ "$f" = "0" ] && [ $featbuild = 0 ] && [ $with != 0 ] && [ $without = 0 ]; then
-  d=/verif/seeded/$pid$var; mkdir -p $d
+  d=/verif/seeded/$pid${SUFFIX:-}$var; mkdir -p $d
   cp $src/patch.diff $d/patch.diff; cp $src/demo_mut.rs $d/demo_mut.rs; cp $src/notes.md $d/notes.md 2>/dev/null
   python3 - <<PY
 import json
